@@ -216,7 +216,9 @@ func H_C14_bool() {
 // 64-bit boundary values and overflowing numerals
 func H_C14_boundary() {
 	var text string
-	switch vChoose(5) {
+	switch vChoose(6) {
+	case 5: // numerals longer than any shortest-form float64 literal
+		text = []string{"340282366920938463463374607431768211456", "0.1000000000000000055511151231257827", "-000000000000000000000000000012"}[vChoose(3)]
 	case 0:
 		text = "922337203685477580" + vNondetString(1, 1, "6789")
 	case 1:
